@@ -103,6 +103,7 @@ type Exec struct {
 	pendingExclude []ExcludeCond
 	havoc    bool
 	sched    *scheduler
+	fileN, fileBytes int
 	mutexes  map[string]*mutexState
 	env      map[string]*big.Int
 	envMemo  map[int]*Term
